@@ -365,6 +365,12 @@ fn opcode_space(tier: Tier) -> Space {
         let mut m = Model::new(CpuK::Amd64, md::PlatformId::Linux as u32);
         m.threads = vec![ThreadM { tid: 1, ctx_ok: true, ip, sp: rsp }];
         m.modules = vec![procgen::app_module()];
+        // with the second stack pointer of the menu the instruction bytes are the LAST bytes of their memory region
+        // (5 bytes in): the decoder gets a truncated instruction, and nothing may be read past the region
+        if idx % r2.len() as u64 == 1 {
+            bytes.truncate(nbytes as usize + 1);
+            m.code_lead = 5;
+        }
         m.code = Some((ip, bytes.clone()));
         m.exc = Some(ExcM { tid: 1, code: 11, flags: 1, address: 0x10, nparams: 0, info: [0; 15], ctx: 1, ctx_ip: ip, ctx_sp: rsp });
         m.maps = MapsM::Linux(vec![(0x4000_0000, 0x4000_ffff, "rx"), (0x7000_0000, 0x7000_ffff, "rw")]);
